@@ -1971,7 +1971,8 @@ def generate(repo, src=None, src_format=None, src_string=None):
                                        (src_string or os.path.join(repo, SRC_STRING), 'ansi_string', STRING_METHODS,
                                         'One static method of _AnsiSettingPoint (ansi_string.py)')):
         try:
-            tree = ast.parse(open(path).read())
+            import pynorm
+            tree = pynorm.normalize(ast.parse(open(path).read()))
         except Exception as e:                                       # noqa
             tree = ast.parse('')
         for pyname, cls, mod in items:
